@@ -642,6 +642,40 @@ def run(ctx):
         r8.check(not unpacked and bool(res_names) and reads <= fields and {"return_code", "timeout"} <= reads, f"{modname}:check_xform", f"reads the validator's result through its fields {sorted(fields)}", cx.loc(),
                  why_fail=("unpacks the result object" if unpacked else f"reads {sorted(reads)}"))
     rules.append(r8)
+    # ------------------------------------------------------------------ R9
+    r9 = Rule("C18", "C18.R9", "a validator process with piped output is drained, and never waited for before it is drained", floor=2,
+              necessary="waiting for the child before reading its pipes blocks as soon as a rejection is longer than the pipe buffer: the validator is "
+                        "killed by the timeout and its rejection is reported as a mere time-out warning (the form is accepted and written)")
+    n9 = 0
+    for fi in repo.all_functions():
+        if not fi.module.name.startswith("pyxform.validators") or fi.module.name.startswith("pyxform.validators.updater"):
+            continue
+        for st in walk_own(fi.node):
+            if not (isinstance(st, ast.Assign) and isinstance(st.value, ast.Call) and call_name(st.value) == "Popen" and len(st.targets) == 1 and isinstance(st.targets[0], ast.Name)):
+                continue
+            piped = [k.arg for k in st.value.keywords if k.arg in ("stdout", "stderr") and norm(k.value).split(".")[-1] == "PIPE"]
+            if not piped:
+                continue
+            n9 += 1
+            pv = st.targets[0].id
+            g = cfgmod.build(fi.node.body)
+            created = g.nodes_of_stmt(st)
+            if not created:
+                raise AnalysisError("C18.R9", "Popen statement not in CFG")
+
+            def _calls(nid, meth, g=g, pv=pv):
+                return [c for c in cfgmod.calls_in(g.nodes[nid].stmt) if isinstance(c.func, ast.Attribute) and c.func.attr == meth and isinstance(c.func.value, ast.Name) and c.func.value.id == pv]
+            drains = {nid for nid in g.nodes if g.nodes[nid].stmt is not None and _calls(nid, "communicate")}
+            waits = {nid for nid in g.nodes if g.nodes[nid].stmt is not None and (_calls(nid, "wait") or _calls(nid, "poll"))}
+            construct = f"{fi.fq}:Popen({', '.join(piped)}=PIPE)"
+            reach = g.reachable(created[0], blocked=frozenset(drains), skip_labels=frozenset({"exc"}))
+            r9.check(bool(drains) and g.exit not in reach, construct + ":drained", "every normal path from the start of the child to the return reads its pipes (communicate)", fi.loc(st),
+                     why_fail="a path returns without communicate()")
+            early = sorted(w for w in waits if w in reach)
+            r9.check(not early, construct + ":no wait before draining", "no wait() / poll() on the child is reachable before communicate()", fi.loc(st),
+                     why_fail="; ".join(g.describe(early)[:2]) if early else "")
+    ctx.count("piped_children", n9)
+    rules.append(r9)
     return rules
 
 
